@@ -7,7 +7,7 @@ import dbutil
 from cliutil import run_cli
 
 PROPS = ('GambitV.Props.C14', 'GambitV.C14')
-TIE = [('GambitV.Tie.PyCliFacts', 'GambitV.Tie.Py'), ('GambitV.Tie.PyParams', 'GambitV.Tie.Py'), ('GambitV.Tie.PyMetaRules', 'GambitV.Tie.Py')]
+TIE = [('GambitV.Tie.PyCliFacts', 'GambitV.Tie.Py'), ('GambitV.Tie.PyParams', 'GambitV.Tie.Py'), ('GambitV.Tie.PyMetaRules', 'GambitV.Tie.Py'), ('GambitV.Tie.PyKmerSpecFacts', 'GambitV.Tie.Py'), ('GambitV.Tie.PyCliParams', 'GambitV.Tie.Py')]
 RULE = ('(command, how each side is supplied, explicit -k/-p or not, parameters of each pre-computed side). gambit dist over the 3 x 5 ways of supplying '
         'queries x references with parameter sets differing in k, in prefix, in both, or equal; gambit query -s SIGFILE against databases with equal / '
         'different parameters (incl. prefixes > 16 nt sharing their first 16 nt, and the library default given explicitly); several signature calculations in one '
